@@ -37,6 +37,8 @@ def wiring_paths(prog, fn, flag, core, disp, wrap=None, input_param=1):
             continue
         cc = entry.calls_to(s, core)
         dc = entry.calls_to(s, disp)
+        if len(cc) == 0 and short_input_rejected(e, s, input_param):
+            continue        # a redundant guard: an input shorter than any language subtag is rejected with the error the parser would give
         if len(cc) != 1:
             bad.append('the core parser is called %d times on a path' % len(cc))
             continue
@@ -105,6 +107,21 @@ def wiring_paths(prog, fn, flag, core, disp, wrap=None, input_param=1):
     if not segs:
         bad.append('no path explored')
     return sorted(set(bad)), len(segs)
+
+
+def short_input_rejected(e, s, input_param):
+    """the path knows the whole input to be at most one byte long (so its first subtag cannot be a language subtag: table A.1, row L0/other)
+    and returns the InvalidLanguage error that the core parser returns for such input"""
+    r = s.ret
+    if not (r is not None and r[0] == 'adt' and r[2] == 'Err' and terms.find_terms(r, lambda t: t[0] == 'adt' and t[2] == 'InvalidLanguage' and not t[3])):
+        return False
+    if [ev for ev in s.state.events if ev[0] in ('store', 'lstore')]:
+        return False
+    for subj, shp in s.state.shapes.items():
+        ap = terms.access_path(('ref', subj)) if subj[0] != 'CONST' else None
+        if ap and ap[0] == input_param and not terms.strip_some(ap[1]) and shp.lengths() <= {0, 1}:
+            return True
+    return False
 
 
 def passes_core_result(e, s, r, core):
@@ -189,6 +206,8 @@ def allow_extension_once(prog, rep, core):
             T = [s for s in lst if s.state.facts.get(flag) is True]
             F = [s for s in lst if s.state.facts.get(flag) is False]
             N = [s for s in lst if flag not in s.state.facts]
+            # "false" world = paths F (flag read as false) and N (flag not read); "true" world = T and N.  The two worlds must return the
+            # same value, except that the false world may reject a leftover subtag (and nothing else).
             for s in F:
                 nret += 1
                 r = s.ret
@@ -201,13 +220,27 @@ def allow_extension_once(prog, rep, core):
                 else:
                     if pending and pending[-1] == 'pos':
                         bad.append('with allow_extension = false a leftover subtag is accepted')
-                    twins = [t for t in T if same_modulo(t, s, flag)]
+                    twins = [t for t in T + N if same_modulo(t, s, flag)]
                     if not twins:
                         bad.append('the value returned with allow_extension = false differs from the one returned with true: %s' % e.short(r, 160))
+            for s in N:
+                nret += 1
+                r = s.ret
+                pending = [v for k, v in s.state.facts.items() if k[0] == 'tag' and k[1][0] == 'has']
+                if not (r[0] == 'adt' and r[2] == 'Err') and pending and pending[-1] == 'pos':
+                    bad.append('a leftover subtag is accepted without consulting allow_extension')
             for t in T:
                 nret += 1
-                if not [f for f in F if same_modulo(t, f, flag)]:
+                if t.ret[0] == 'adt' and t.ret[2] == 'Err':
+                    bad.append('allow_extension = true adds an error: %s' % e.short(t.ret, 120))
+                    continue
+                # the counterpart may return its leftover error before later (flag-independent) decisions of this path are made
+                mates = [f for f in F if same_facts(t, f, flag) or (f.ret[0] == 'adt' and f.ret[2] == 'Err' and sub_facts(f, t, flag))]
+                if not mates:
                     bad.append('a value returned with allow_extension = true has no counterpart with false')
+                for f in mates:
+                    if not (f.ret[0] == 'adt' and f.ret[2] == 'Err') and entry.norm_uids(f.ret) != entry.norm_uids(t.ret):
+                        bad.append('the value returned with allow_extension = false differs from the one returned with true: %s' % e.short(f.ret, 160))
         rep.ob('allow-extension-once', 'PAIR-FLAG', fn, b['span'],
                'allow_extension is consulted only after the subtag loop; false only adds "leftover subtag => InvalidSubtag", the parsed value is otherwise identical',
                not bad and nret > 0, detail='\n'.join(sorted(set(bad))[:5]), how='%d post-loop exits compared pairwise' % nret)
@@ -217,6 +250,19 @@ def facts_added(s):
     """fact keys decided within the segment (not inherited from before its start): approximated by the keys whose decision
     event lies in the segment — PX keeps facts in insertion order and loop cuts drop non-persistent ones"""
     return list(s.state.facts.keys())
+
+
+def same_facts(a, b, flag):
+    fa = {entry.norm_uids(k): v for k, v in a.state.facts.items() if k != flag and not (k[0] == 'tag' and k[1][0] == 'has')}
+    fb = {entry.norm_uids(k): v for k, v in b.state.facts.items() if k != flag and not (k[0] == 'tag' and k[1][0] == 'has')}
+    return fa == fb
+
+
+def sub_facts(a, b, flag):
+    """every decision of path a (other than the flag and iterator look-ahead) was made the same way on path b"""
+    fa = {entry.norm_uids(k): v for k, v in a.state.facts.items() if k != flag and not (k[0] == 'tag' and k[1][0] == 'has')}
+    fb = {entry.norm_uids(k): v for k, v in b.state.facts.items() if k != flag and not (k[0] == 'tag' and k[1][0] == 'has')}
+    return all(k in fb and fb[k] == v for k, v in fa.items())
 
 
 def same_modulo(a, b, flag):
